@@ -103,7 +103,7 @@ structure Entry where
   name : String
   kind : String
   signed : Bool
-  deriving Repr, BEq, Inhabited
+  deriving Repr, DecidableEq, BEq, Inhabited
 
 /-- `X690Type.get(cls, tag, nature)` with `UnknownType` as fallback -/
 def lookup (b : Nat) : Entry :=
